@@ -203,7 +203,7 @@ def _rewrite_blocks(node) -> bool:
             continue
         new_block = []
         for st in block:
-            rep = _lower_ifexp_stmt(st) or _lower_dictcomp_stmt(st) or _lower_idempotent_set(st) or _hoist_walrus_stmt(st)
+            rep = _lower_ifexp_stmt(st) or _lower_dictcomp_stmt(st) or _lower_idempotent_set(st) or _hoist_walrus_stmt(st) or _split_tuple_assign(st)
             if rep is not None:
                 new_block.extend(rep)
                 changed = True
@@ -899,11 +899,23 @@ def _propagate_name_copies(tree: ast.Module) -> bool:
             if not (isinstance(st, ast.Assign) and len(st.targets) == 1 and isinstance(st.targets[0], ast.Name) and isinstance(st.value, ast.Name)):
                 continue
             v, w = st.targets[0].id, st.value.id
-            if v == w or id(st) in in_loop or v in params or v in declared or w in declared or v in nested_bound or w in nested_bound:
+            if v == w or v in params or v in declared or w in declared or v in nested_bound or w in nested_bound:
                 continue
             if stores.get(v) != 1:
                 continue
-            if w in params:
+            if id(st) in in_loop:
+                # inside a loop: good for the rest of the iteration when w is (re)bound earlier
+                # in the same block, v is only used later in that block, and no closure sees them
+                blk = next((b for o in own + [fn] for f_ in ("body", "orelse", "finalbody") for b in [getattr(o, f_, None)] if isinstance(b, list) and st in b), None)
+                wdefs = plain_assigned.get(w, [])
+                if blk is None or stores.get(w) != 1 or len(wdefs) != 1 or wdefs[0] not in blk or blk.index(wdefs[0]) > blk.index(st):
+                    continue
+                later = {id(x) for b in blk[blk.index(st) + 1 :] for x in ast.walk(b)}
+                if any(isinstance(x, ast.Name) and x.id == v and isinstance(x.ctx, ast.Load) and id(x) not in later for x in ast.walk(fn)):
+                    continue
+                if any(isinstance(x, ast.Name) and x.id in (v, w) for sub in nested for x in ast.walk(sub)):
+                    continue
+            elif w in params:
                 if stores.get(w):
                     continue
             elif not (stores.get(w) == 1 and len(plain_assigned.get(w, [])) == 1 and id(plain_assigned[w][0]) not in in_loop):
@@ -1015,6 +1027,184 @@ def _flatten_star_tuples(tree: ast.Module) -> bool:
                 else:
                     new.append(a)
             n.args = new
+        # `f(**{"k": v})` -> `f(k=v)`, `f(**{})` -> `f()`
+        if isinstance(n, ast.Call) and any(k.arg is None and isinstance(k.value, ast.Dict) and all(isinstance(x, ast.Constant) and isinstance(x.value, str) and x.value.isidentifier() for x in k.value.keys) for k in n.keywords):
+            newk = []
+            for k in n.keywords:
+                if k.arg is None and isinstance(k.value, ast.Dict) and all(isinstance(x, ast.Constant) and isinstance(x.value, str) and x.value.isidentifier() for x in k.value.keys):
+                    for kk, vv in zip(k.value.keys, k.value.values):
+                        newk.append(ast.copy_location(ast.keyword(arg=kk.value, value=vv), k))
+                    changed = True
+                else:
+                    newk.append(k)
+            if len({k.arg for k in newk if k.arg}) == len([k for k in newk if k.arg]):
+                n.keywords = newk
+    return changed
+
+
+def _literal(e) -> bool:
+    return all(isinstance(n, (ast.Dict, ast.Tuple, ast.List, ast.Set, ast.Constant, ast.Name, ast.Attribute, ast.Load)) for n in ast.walk(e))
+
+
+def _forward_literals(tree: ast.Module) -> bool:
+    """`args = (a, b)` ... `f(*args)`: a local bound to a literal display / plain name whose
+    only use follows in the same straight-line block (nothing it mentions is rebound in
+    between) is replaced by the literal at that use."""
+    changed = False
+    for fn in ast.walk(tree):
+        if not isinstance(fn, (ast.FunctionDef, ast.AsyncFunctionDef)):
+            continue
+        loads: dict = {}
+        stores: dict = {}
+        for n in ast.walk(fn):
+            if isinstance(n, ast.Name):
+                d = loads if isinstance(n.ctx, ast.Load) else stores
+                d[n.id] = d.get(n.id, 0) + 1
+            elif isinstance(n, (ast.Global, ast.Nonlocal)):
+                for x in n.names:
+                    stores[x] = stores.get(x, 0) + 100
+        params = {a.arg for a in fn.args.posonlyargs + fn.args.args + fn.args.kwonlyargs}
+        pairs: dict = {}
+        for owner in ast.walk(fn):
+            for fld in ("body", "orelse", "finalbody"):
+                block = getattr(owner, fld, None)
+                if not isinstance(block, list):
+                    continue
+                for k, st in enumerate(block):
+                    if not (isinstance(st, ast.Assign) and len(st.targets) == 1 and isinstance(st.targets[0], ast.Name) and _literal(st.value)):
+                        continue
+                    v = st.targets[0].id
+                    if v in params or isinstance(st.value, ast.Constant):
+                        continue
+                    read = {n.id for n in ast.walk(st.value) if isinstance(n, ast.Name)} | {v}
+                    reads_attrs = any(isinstance(n, ast.Attribute) for n in ast.walk(st.value))
+                    for m in range(k + 1, len(block)):
+                        x = block[m]
+                        if isinstance(x, _COMPOUND):
+                            break
+                        uses = [n for n in ast.walk(x) if isinstance(n, ast.Name) and n.id == v and isinstance(n.ctx, ast.Load)]
+                        if uses:
+                            ok = len(uses) == 1 and not any(isinstance(n, (ast.Lambda, ast.ListComp, ast.DictComp, ast.SetComp, ast.GeneratorExp, ast.NamedExpr)) for n in ast.walk(x))
+                            if ok and reads_attrs:
+                                # an attribute is read later than before: nothing may run in between
+                                ok = all(any(y is uses[0] for y in ast.walk(c)) for c in ast.walk(x) if isinstance(c, (ast.Call, ast.Await)))
+                            if ok:
+                                pairs.setdefault(v, []).append((block, st, x, uses[0]))
+                            break
+                        if _stored_names(x) & read:
+                            break
+                        if reads_attrs and any(isinstance(n, (ast.Call, ast.Await)) or (isinstance(n, (ast.Attribute, ast.Subscript)) and isinstance(n.ctx, (ast.Store, ast.Del))) for n in ast.walk(x)):
+                            break
+        for v, ps in pairs.items():
+            if not (stores.get(v) == loads.get(v) == len(ps)):
+                continue
+            # only worth it for displays that are unpacked / subscripted at the use, or copies
+            for block, st, x, use in ps:
+                val = st.value
+
+                class S(ast.NodeTransformer):
+                    def visit_Name(self, node):
+                        if node is use:
+                            return ast.copy_location(copy.deepcopy(val), node)
+                        return node
+
+                block[block.index(x)] = S().visit(x)
+                block.remove(st)
+                changed = True
+    return changed
+
+
+def _split_tuple_assign(st):
+    """`a, b = x, y` -> `a = x` / `b = y` when no target occurs in a value."""
+    if not (isinstance(st, ast.Assign) and len(st.targets) == 1 and isinstance(st.targets[0], ast.Tuple) and isinstance(st.value, ast.Tuple)):
+        return None
+    tg, vals = st.targets[0].elts, st.value.elts
+    if len(tg) != len(vals) or not all(isinstance(t, ast.Name) for t in tg) or any(isinstance(v, ast.Starred) for v in vals):
+        return None
+    tnames = {t.id for t in tg}
+    if len(tnames) != len(tg) or any(isinstance(x, ast.Name) and x.id in tnames for v in vals for x in ast.walk(v)):
+        return None
+    return [ast.copy_location(ast.Assign(targets=[t], value=v, lineno=st.lineno), st) for t, v in zip(tg, vals)]
+
+
+def _sink_into_branches(tree: ast.Module) -> bool:
+    """`if c: t = A` / `else: t = B` followed by one simple statement S that holds the only use
+    of t (and t is bound nowhere else): S moves into the branches with the literal in t's
+    place.  Undoes the detour an inlined option-building helper leaves behind
+    (`f(x, **opts(dep))`, `for name, args, kwargs in lookups(): f(*args, **kwargs)`)."""
+    changed = False
+    for fn in ast.walk(tree):
+        if not isinstance(fn, (ast.FunctionDef, ast.AsyncFunctionDef)):
+            continue
+        loads: dict = {}
+        stores: dict = {}
+        for n in ast.walk(fn):
+            if isinstance(n, ast.Name):
+                d = loads if isinstance(n.ctx, ast.Load) else stores
+                d[n.id] = d.get(n.id, 0) + 1
+        for owner in list(ast.walk(fn)):
+            for fld in ("body", "orelse", "finalbody"):
+                block = getattr(owner, fld, None)
+                if not isinstance(block, list):
+                    continue
+                for i, st in enumerate(block[:-1]):
+                    nxt = block[i + 1]
+                    if not isinstance(st, ast.If) or not st.orelse or not isinstance(nxt, (ast.Assign, ast.Expr, ast.Return, ast.AugAssign, ast.AnnAssign)):
+                        continue
+                    if any(isinstance(n, (ast.Lambda, ast.ListComp, ast.DictComp, ast.SetComp, ast.GeneratorExp, ast.NamedExpr)) for n in ast.walk(nxt)):
+                        continue
+                    leaves: list = []  # (block, {name: (assign stmt, value)})
+
+                    def collect(stmts) -> bool:
+                        if not stmts:
+                            return False
+                        last = stmts[-1]
+                        if isinstance(last, ast.If):
+                            return collect(last.body) and collect(last.orelse)
+                        if isinstance(last, _TERMINATORS):
+                            return True
+                        run: dict = {}
+                        for x in reversed(stmts):
+                            if isinstance(x, ast.Assign) and len(x.targets) == 1 and isinstance(x.targets[0], ast.Name) and _literal(x.value) and x.targets[0].id not in run:
+                                run[x.targets[0].id] = (x, x.value)
+                            else:
+                                break
+                        if not run:
+                            return False
+                        read = {n.id for _x, v in run.values() for n in ast.walk(v) if isinstance(n, ast.Name)}
+                        if read & set(run):
+                            return False
+                        leaves.append((stmts, run))
+                        return True
+
+                    if not collect([st]) or len(leaves) < 2:
+                        continue
+                    used_in_nxt: dict = {}
+                    for n in ast.walk(nxt):
+                        if isinstance(n, ast.Name) and isinstance(n.ctx, ast.Load):
+                            used_in_nxt[n.id] = used_in_nxt.get(n.id, 0) + 1
+                    common = set.intersection(*[set(run) for _b, run in leaves])
+                    V = {v for v in common if loads.get(v) == 1 and used_in_nxt.get(v) == 1 and stores.get(v) == len(leaves)}
+                    if not V or not any(not isinstance(run[v][1], ast.Name) for _b, run in leaves for v in V):
+                        continue
+                    if any(isinstance(n, ast.Attribute) for _b, run in leaves for v in V for n in ast.walk(run[v][1])):
+                        # attributes would be read later than before: nothing may run in between
+                        attr_vars = {v for v in V if any(isinstance(n, ast.Attribute) for _b, run in leaves for n in ast.walk(run[v][1]))}
+                        use_nodes = [n for n in ast.walk(nxt) if isinstance(n, ast.Name) and n.id in attr_vars and isinstance(n.ctx, ast.Load)]
+                        if not all(all(any(y is u for y in ast.walk(c)) for u in use_nodes) for c in ast.walk(nxt) if isinstance(c, (ast.Call, ast.Await))):
+                            continue
+                    for blk, run in leaves:
+                        class S(ast.NodeTransformer):
+                            def visit_Name(self, node, run=run):
+                                if node.id in V and isinstance(node.ctx, ast.Load):
+                                    return ast.copy_location(copy.deepcopy(run[node.id][1]), node)
+                                return node
+
+                        drop = {id(run[v][0]) for v in V}
+                        blk[:] = [x for x in blk if id(x) not in drop] + [S().visit(copy.deepcopy(nxt))]
+                    del block[i + 1]
+                    changed = True
+                    break
     return changed
 
 
@@ -1039,6 +1229,13 @@ def normalize_tree(tree: ast.Module) -> bool:
         if not _dematerialise_lists(tree):
             break
         changed_any = True
+    for _ in range(3):
+        if not (_sink_into_branches(tree) | _forward_literals(tree)):
+            break
+        changed_any = True
+        _flatten_star_tuples(tree)
+        while _rewrite_blocks(tree):
+            pass
     if _thread_branches(tree):
         changed_any = True
     if changed_any:
